@@ -29,6 +29,7 @@ SCP = dict(sver=0, read=2, write=3, fill=5, link_read=17, link_write=18, nnp=20,
 SIG_STOP = 2
 ERRS = {1: "TypeError", 2: "ValueError", 3: "AssertionError"}
 INTERRUPTS = ("KeyboardInterrupt", "SystemExit", "HarnessInterrupt")     # model error 6
+SCP_ERRORS = ("TimeoutError", "FatalReturnCodeError")                       # model error 7
 
 DEFAULT_INITIAL = {"mc_initial": [["app_id", 66]], "bmp_initial": [["cabinet", 0], ["frame", 0], ["board", 0]]}
 
@@ -285,7 +286,11 @@ class Gen(object):
                     ops.append(self.app(cls, methods, ctl, inforce, depth))
                     continue
                 pos, kw, shape = self.call(cls, m, ctl, inforce)
-                if any(isinstance(v, dict) and v["t"] % 4 in (1, 2) for v in pos[:1] + [b for a, b in kw if a == "state"]) \
+                if r.random() < 0.06:
+                    ops.append(["callrefused", m, pos, kw, r.choice(SCP_ERRORS)])
+                    self.shapes.append((m, shape + ["machine-refuses-a-command"]))
+                    continue
+                if any(isinstance(v, dict) and v.get("t", 0) % 4 in (1, 2) for v in pos[:1] + [b for a, b in kw if a == "state"]) \
                         and m in ("count_cores_in_state", "wait_for_cores_to_reach_state"):
                     shape.append("sequence-of-states")
                 ops.append(["call", m, pos, kw, r.random() < 0.15])
@@ -325,6 +330,30 @@ class Gen(object):
                     m = methods.pop()
                     if m != "application":
                         pos, ckw, shape = self.call(cls, m, ctl, inforce | set(k for k, _ in kw))
+                        inner.append(["call", m, pos, ckw, False])
+                        self.shapes.append((m, shape))
+                if var is not None and var not in active and methods and r.random() < 0.5:
+                    # the kept object, entered once and innermost, is changed through its public update() between
+                    # two commands, no block being entered or left in between
+                    nm = r.choice([k for k, _ in kw] or CTX_NAMES[cls][:3])
+                    upd = [[nm, self.value(cls, "__call__", nm, ctl)]]
+                    if r.random() < 0.4:
+                        nm2 = r.choice(CTX_NAMES[cls][:5])
+                        if nm2 != nm:
+                            upd.append([nm2, self.value(cls, "__call__", nm2, ctl)])
+                    now = [list(p) for p in kw]
+                    for k2, v2 in upd:
+                        hit = [p for p in now if p[0] == k2]
+                        if hit:
+                            hit[0][1] = v2
+                        else:
+                            now.append([k2, v2])
+                    inner.append(["ctxupdate", var, upd])
+                    self.kept[var] = now                   # what the object holds from now on
+                    self.shapes.append(("__context__", ["kept-object-updated-while-entered"]))
+                    m = methods.pop()
+                    if m != "application":
+                        pos, ckw, shape = self.call(cls, m, ctl, inforce | set(k for k, _ in now))
                         inner.append(["call", m, pos, ckw, False])
                         self.shapes.append((m, shape))
                 ops.append(["with", kw, inner, var])
@@ -516,6 +545,10 @@ def cop(op):
     if k == "call":
         return "OCall %s %s %s %s" % (cstr(op[1]), vlist(cval(v) for v in op[2]), ckw(op[3]),
                                       "true" if op[4] else "false")
+    if k == "callrefused":
+        return "OCallRefused %s %s %s" % (cstr(op[1]), vlist(cval(v) for v in op[2]), ckw(op[3]))
+    if k == "ctxupdate":
+        return "OUpdate %s" % ckw(op[2])      # the object is the innermost context and on the stack once
     if k == "with":
         return "OWith %s %s" % (ckw(op[1]), cops(op[2]))
     if k == "app":
@@ -623,6 +656,9 @@ def outcome_agrees(model, trace, exc):
     if err == 6:
         if exc not in INTERRUPTS:
             return "model: the interrupt raised by the connection travels outward"
+    elif err == 7:
+        if exc not in SCP_ERRORS:
+            return "model: the SCPError raised by the connection travels outward"
     elif err != 0 and ERRS.get(err) != exc:
         return "model: %s after %d command(s)" % (ERRS.get(err, "error %d" % err), len(wires))
     if err == 0 and exc is not None:
@@ -993,6 +1029,19 @@ class Oracle(object):
                     raise Unwind()
             elif k == "update":
                 self.stack[-1].update(dict((a, b) for a, b in op[1]))
+            elif k == "ctxupdate":
+                self.stack[-1].update(dict((a, b) for a, b in op[2]))     # the object is the innermost context
+            elif k == "callrefused":
+                e = self.next_event("call")
+                if e[1] != op[1]:
+                    self.fail("events", "expected call of %s, got %s" % (op[1], e[1]))
+                    raise Unwind()
+                if self.cls == "MC":
+                    self.check_mc_call(op[1], op[2], op[3], e[2], e[3])
+                else:
+                    self.check_bmp_call(op[1], op[2], op[3], e[2], e[3])
+                if e[3] is not None:
+                    raise Unwind()
             elif k == "raise":
                 raise Unwind()
             elif k == "try":
